@@ -592,6 +592,8 @@ pub struct RandCfg {
     pub snap_every: u64,
     /// false: never clear (lets the tree grow large)
     pub clears: bool,
+    /// one in `clear_den` of the calls of the last group is a clear (default 6; small = clear churn)
+    pub clear_den: u64,
 }
 
 pub fn run_random<C: KeyColl>(tr: &mut Trace, cfg: &RandCfg) {
@@ -605,8 +607,18 @@ pub fn run_random<C: KeyColl>(tr: &mut Trace, cfg: &RandCfg) {
     let mut clock = 0i32;
     while done < cfg.steps && !s.tr.full() {
         if in_seg >= cfg.seg_len {
-            // end the segment with an export (the collection is consumed), then start afresh
-            let t = clock.max(s.now) + rng.range(0, 2) as i32;
+            // end the segment with an export (the collection is consumed), then start afresh;
+            // now and then the clock first runs to the end of time (nothing is live at E::MAX)
+            let mut t = clock.max(s.now) + rng.range(0, 2) as i32;
+            if rng.chance(1, 4) {
+                t = i32::MAX;
+                let k = rng.range(0, cfg.keys as i64 + 1) as i32;
+                s.apply(&KOp::Le { t, p: k }, 0);
+                s.apply(&KOp::Get { t, k }, 0);
+                s.apply(&KOp::Lt { t, p: cfg.keys + 1 }, 0);
+                s.apply(&KOp::By { t, th: 2 * cfg.keys + 1 }, 0);
+                s.apply(&KOp::Empty, 0);
+            }
             clock = 0;
             s.apply(&KOp::Export { t }, 0);
             s.reset(caps[(rng.next() % 5) as usize]);
@@ -624,6 +636,10 @@ pub fn run_random<C: KeyColl>(tr: &mut Trace, cfg: &RandCfg) {
         }
         if rng.chance(1, 4) {
             clock += rng.range(0, 2) as i32;
+        }
+        if rng.chance(1, 45) {
+            // a long pause of the caller: everything stored so far expires at once
+            clock += 3 * cfg.tspan + 1;
         }
         let t = clock;
         let k = rng.range(0, cfg.keys as i64 + 1) as i32;
@@ -646,7 +662,7 @@ pub fn run_random<C: KeyColl>(tr: &mut Trace, cfg: &RandCfg) {
             14..=16 => s.apply(&KOp::Get { t, k }, arm),
             17 => s.apply(&KOp::Empty, 0),
             18 => {
-                if cfg.clears && rng.chance(1, 6) {
+                if cfg.clears && rng.chance(1, cfg.clear_den.max(1)) {
                     clock = 0; // the clock may restart after a clear
                     s.apply(&KOp::Clear, 0)
                 } else {
